@@ -1,3 +1,5 @@
-//! C08 — not built yet.
+//! C08 — well-formedness of compiled linear models; shares the generator and correspondence of C01.
 use crate::case::Case;
-pub fn generate(_seed: u64, _n: usize, _thorough: bool, _corpus: Option<&str>) -> Vec<Case> { vec![] }
+pub fn generate(seed: u64, n: usize, thorough: bool, corpus: Option<&str>) -> Vec<Case> {
+    crate::props::c01::generate_for("c08", seed.wrapping_add(2000), n, thorough, corpus)
+}
